@@ -58,6 +58,11 @@ def parse_cases(rng, T):
                 for count_pad in (0, 1):
                     nsig = 1 + len(base_idx) + (len(pset) if count_pad else 0)
                     add(ser(nf, bm, rng.bytes(32 * nsig)), '%s-%s-%s' % (cls, pn, 'counted' if count_pad else 'uncounted'))
+    # the length argument is a size_t: lengths that are right only modulo 2^8 / 2^16 / 2^32 / 2^63 must be refused
+    for nf, idx in [(1, [0]), (3, [0, 2]), (8, [1, 5]), (9, []), (64, list(range(0, 64, 3))), (256, [0, 255])]:
+        bm = bitmap_of(bl_of(nf), idx); enc = ser(nf, bm, rng.bytes(32 * (1 + len(idx))))
+        for d, cls in ((0, 'claimed-exact'), (1 << 32, 'claimed+2^32'), (5 << 32, 'claimed+5*2^32'), (1 << 63, 'claimed+2^63'), (1 << 16, 'claimed+2^16'), (1 << 8, 'claimed+2^8')):
+            cases.append(('surj_parse_len %s %d' % (hx(enc), len(enc) + d), ('parse', cls)))
     # byte order of the n_inputs field: 0x0100 is 256, 0x0001 is 1
     add(ser(256, bytes(32), rng.bytes(32)), 'n256-le')
     add(bytes([1, 0]) + bytes(32) + rng.bytes(32), 'n1-as-be256')
